@@ -1,17 +1,15 @@
 open Model
 open Wire
 open Fnum
+open Regex_wire
 
-let res_bytes = function
-  | Ok b -> "ok " ^ hex_of_bytes b
+let res_with f = function
+  | Ok x -> "ok " ^ f x
   | Err m -> "err " ^ hex_of_bytes m
   | Panic -> "panic"
   | Unmod -> "unmod"
-let res_z = function
-  | Ok z -> "ok " ^ string_of_z z
-  | Err m -> "err " ^ hex_of_bytes m
-  | Panic -> "panic"
-  | Unmod -> "unmod"
+let res_bytes = res_with hex_of_bytes
+let res_z = res_with string_of_z
 
 let handle = function
   | ["substr"; c; s; p] ->
@@ -23,6 +21,25 @@ let handle = function
   | ["int"; x] -> "ok " ^ string_of_fnum (builtin_int (fnum_of_bits x))
   | ["index"; c; s; t] -> res_z (builtin_index (bool_of_string c) (bytes_of_hex s) (bytes_of_hex t))
   | ["length"; c; s] -> "ok " ^ string_of_z (builtin_length (bool_of_string c) (bytes_of_hex s))
+  (* match <chars> <regex-ast> <s>  ->  ok RSTART RLENGTH *)
+  | ["match"; c; r; s] ->
+      res_with (fun (a, b) -> string_of_z a ^ " " ^ string_of_z b)
+        (match_re (re_of_wire r) (bool_of_string c) (bytes_of_hex s))
+  (* sub <global> <regex-ast> <repl> <src>  ->  ok count out *)
+  | ["sub"; g; r; repl; s] ->
+      res_with (fun (out, n) -> string_of_z n ^ " " ^ hex_of_bytes out)
+        (sub_re (re_of_wire r) (bool_of_string g) (bytes_of_hex repl) (bytes_of_hex s))
+  (* split <sepIsRegex> <sep> <regex-ast of sep> <s>  ->  ok n key=value ... *)
+  | ["split"; isre; sep; r; s] ->
+      res_with (fun (n, arr) ->
+          String.concat " " (string_of_z n :: List.map (fun (k, v) -> string_of_z k ^ "=" ^ hex_of_bytes v) arr))
+        (split_re (re_of_wire r) (bytes_of_hex sep) (bool_of_string isre) (bytes_of_hex s))
+  (* findall <regex-ast> <s>: the engine alone (Lib/Regex.all_matches), for the trusted-base self check *)
+  | ["findall"; r; s] ->
+      String.concat " " (List.map (fun (a, b) -> string_of_z a ^ "," ^ string_of_z b)
+        (all_matches (re_of_wire r) (bytes_of_hex s))) ^ ";"
+  | ["upper"; s] -> res_bytes (builtin_toupper (bytes_of_hex s))
+  | ["lower"; s] -> res_bytes (builtin_tolower (bytes_of_hex s))
   | op :: _ -> "driver-error unknown-op " ^ op
   | [] -> "driver-error empty"
 
